@@ -245,7 +245,41 @@ func (b *Batch) Compile(needUnopt bool) bool {
 			// link the optimised build twice; unopt is not part of this check's verdict
 			exec.Command("cp", "-r", filepath.Join(b.Dir, "opt"), filepath.Join(b.Dir, "unopt")).Run()
 		}
-		b.copySkipped()
+		if missing := b.copySkipped(); len(missing) > 0 {
+			// the compiler wrote no generated file for a file that uses the API
+			dropped := map[string]bool{}
+			for _, m := range missing {
+				base := filepath.Base(m)
+				if dropped[base] {
+					continue
+				}
+				dropped[base] = true
+				var names []string
+				for _, f := range b.Prog.Files {
+					if f.Name == base {
+						for _, fn := range f.Funcs {
+							names = append(names, fn.Name)
+						}
+						for _, fn := range f.Extern {
+							names = append(names, fn.Name)
+						}
+					}
+				}
+				if len(names) == 0 {
+					ev.Infra("generated file missing for %s, which holds no function of the batch", m)
+				}
+				g := GateFailure{Func: names[0], Stage: "build-" + strings.SplitN(m, "/", 2)[0], Msg: "no generated file was written for " + base + " (it uses the API)",
+					Files: filesOf(b.Prog), Prog: nil}
+				if f := b.Prog.Find(names[0]); f != nil {
+					g.Source = b.Prog.RenderFunc(f, gen.Mode{})
+				}
+				b.Gate = append(b.Gate, g)
+				for _, n := range names {
+					b.Prog.Remove(n)
+				}
+			}
+			continue
+		}
 		out, err := b.run(10*time.Minute, b.Dir, "go", "build", "-gcflags=-e", "-o", "run", ".")
 		if err == nil {
 			return true
@@ -296,20 +330,31 @@ func (b *Batch) Compile(needUnopt bool) bool {
 
 // copySkipped copies the files of the source package that the compiler did not emit (files
 // that do not use the API: the registry, helper declarations) next to the outputs.
-func (b *Batch) copySkipped() {
+// A file that DOES import the API and is missing from an output directory is reported: the
+// compiler owes a generated file for it (copying the source would link the no-op stubs).
+func (b *Batch) copySkipped() (missing []string) {
 	srcDir := filepath.Join(b.Dir, "src", b.Prog.Pkg)
 	ents, err := os.ReadDir(srcDir)
 	must(err)
 	for _, e := range ents {
+		if strings.HasSuffix(e.Name(), "_test.go") {
+			continue
+		}
+		data, err := os.ReadFile(filepath.Join(srcDir, e.Name()))
+		must(err)
+		usesAPI := strings.Contains(string(data), "\"github.com/goghcrow/go-co\"")
 		for _, out := range []string{"opt", "unopt"} {
 			dst := filepath.Join(b.Dir, out, b.Prog.Pkg, e.Name())
 			if _, err := os.Stat(dst); err != nil {
-				data, err := os.ReadFile(filepath.Join(srcDir, e.Name()))
-				must(err)
+				if usesAPI {
+					missing = append(missing, out+"/"+e.Name())
+					continue
+				}
 				writeFile(dst, string(data))
 			}
 		}
 	}
+	return
 }
 
 // dropUnusedAPIImport makes the intermediate stage buildable: the rewrite stage leaves the
